@@ -60,10 +60,10 @@ func genRegister(r *Rng, failing bool, marker bool) Step {
 }
 
 func genRenderStep(r *Rng, faultPct int) Step {
-	st := Step{Op: "render", A: r.Intn(NFormats), B: r.Intn(NDecoChoices), C: r.Intn(NVia), D: r.Intn(8), E: r.Intn(2)}
+	st := Step{Op: "render", A: r.Intn(NFormats), B: r.Intn(NDecoChoices), C: r.Intn(NVia), D: r.Intn(16), E: r.Intn(2)}
 	if r.Intn(100) < faultPct {
 		st.E = 1
-		st.Plan = []int{r.Intn(12), 1 + r.Intn(3), r.Range(1, 99)}
+		st.Plan = []int{r.Intn(12), 1 + r.Intn(4), r.Range(1, 99)}
 	}
 	return st
 }
@@ -79,7 +79,7 @@ func (engC11) ID() string    { return "C11" }
 func (engC11) Level() string { return "exploration" }
 func (engC11) Runs(tier string) int {
 	if tier == "thorough" {
-		return 2000000
+		return 40000000
 	}
 	return 40000
 }
@@ -98,6 +98,9 @@ func (engC11) Assumptions() []string {
 func (engC11) Gen(r *Rng, s *Script, idx int, tier string) {
 	s.Config["kind"] = r.Intn(7)
 	n := r.Range(0, 24)
+	if tier == "thorough" && r.Chance(1, 3) {
+		n = r.Range(20, 60)
+	}
 	s.Config["steps"] = n
 	ctr := 0
 	if r.Chance(1, 3) {
@@ -242,7 +245,7 @@ func (engC12) ID() string    { return "C12" }
 func (engC12) Level() string { return "exploration" }
 func (engC12) Runs(tier string) int {
 	if tier == "thorough" {
-		return 1500000
+		return 8000000
 	}
 	return 30000
 }
@@ -260,6 +263,9 @@ func (engC12) Assumptions() []string {
 func (engC12) Gen(r *Rng, s *Script, idx int, tier string) {
 	s.Config["kind"] = r.Intn(7)
 	n := r.Range(2, 30)
+	if tier == "thorough" && r.Chance(1, 3) {
+		n = r.Range(25, 60)
+	}
 	s.Config["steps"] = n
 	ctr := 0
 	m := drawBuildMix(r)
@@ -334,7 +340,7 @@ func (engC13) ID() string    { return "C13" }
 func (engC13) Level() string { return "exploration" }
 func (engC13) Runs(tier string) int {
 	if tier == "thorough" {
-		return 1500000
+		return 25000000
 	}
 	return 30000
 }
@@ -411,18 +417,30 @@ func (engC13) Gen(r *Rng, s *Script, idx int, tier string) {
 	}
 	s.Config["kind"] = r.Pick([]int{6, 1, 1, 1, 1, 1, 1})
 	n := r.Range(2, 22)
+	if tier == "thorough" && r.Chance(1, 3) {
+		n = r.Range(18, 50)
+	}
 	s.Config["steps"] = n
 	ctr := 0
 	m := drawBuildMix(r)
 	m.scramble = 0
 	nreg := r.Range(1, 3)
+	failing := r.Chance(1, 3) // callbacks that return errors must not disturb the traversal
+	same := r.Chance(1, 4) || (failing && r.Chance(1, 2))
+	s.Config["failing_callbacks"] = map[bool]int{false: 0, true: 1}[failing]
 	regAt := map[int]bool{}
 	for k := 0; k < nreg; k++ {
 		regAt[r.Intn(n)] = true
 	}
 	for i := 0; i < n; i++ {
 		if regAt[i] {
-			s.Steps = append(s.Steps, genRegister(r, false, true))
+			s.Steps = append(s.Steps, genRegister(r, failing, true))
+			if same && len(s.Steps) > 0 {
+				// a second registration in the very same list as the first
+				dup := s.Steps[len(s.Steps)-1]
+				dup.Plan = nil
+				s.Steps = append(s.Steps, dup)
+			}
 			continue
 		}
 		if i > n/2 && r.Chance(1, 4) {
